@@ -444,6 +444,22 @@ def _ptrcheck(b, tr, bi, t):
     return 'violation', 'raw-pointer-dereference', 'a raw pointer is dereferenced and its validity is not established'
 
 
+def enum_cast_bound(facts, tr, op):
+    """(min, max, enum path) of `x as usize` for a value x of a workspace enum: the range of its discriminants."""
+    o = tr.origin(op)
+    if not (o['o'] == 'rvalue' and o['rv'].get('r') == 'cast' and str(o['rv'].get('kind', '')).startswith('IntToInt')):
+        return None
+    s_ = tr.origin(o['rv']['a'])
+    if not (s_['o'] == 'rvalue' and s_['rv'].get('r') == 'discr'):
+        return None
+    ety = facts.norm(str(s_['rv']['place'].get('ty', ''))).lstrip('&').strip()
+    a = facts.adts.get(ety.split('<')[0])
+    ds = (a or {}).get('discrs') or []
+    if not ds:
+        return None
+    return min(ds), max(ds), ety
+
+
 def _bounds(ctx, b, tr, bi, t):
     ln, ix = t['ops']
     io = tr.origin(ix)
@@ -459,6 +475,13 @@ def _bounds(ctx, b, tr, bi, t):
         if c2 is not None and c1 == c2 and not _resized(b, tr, c2):
             return 'discharged', 'bounds-uniform-index', 'index = Uniform::new(0, len(_%d)).sample(..) into the never resized _%d' % (c2, c2)
     if io['o'] != 'const':
+        ed = enum_cast_bound(ctx.facts, tr, ix)
+        if ed is not None:
+            lo2 = tr.origin(ln)
+            n2 = const_value(lo2['c']) if lo2['o'] == 'const' else None
+            if isinstance(n2, int) and ed[1] < n2:
+                return 'discharged', 'bounds-enum-index', 'index = %s as usize, discriminants %d..=%d < constant length %d' \
+                    % (ed[2], ed[0], ed[1], n2)
         hv = _assert_holds_by_value(ctx, b, bi)
         if hv:
             return 'discharged', 'bounds-by-value', hv
@@ -945,6 +968,10 @@ def _loop_counter(oa, b, cfg, tr, x, bi):
         if dbi in loop['body']:
             incs += 1
             continue
+        if rv['r'] == 'use' and 'l' in rv['a']:
+            zo = tr.origin(rv['a'])
+            if zo['o'] == 'const' and not zo.get('p') and const_value(zo['c']) == 0:
+                continue        # a 0 that travels through a constructor / a struct rebuilt between the loops
         return None
     if incs != 1:
         return None
